@@ -28,11 +28,24 @@ import (
 )
 
 const (
-	verifRoot = "/verif"
-	simDir    = "/verif/sim"
-	repoDir   = "/repo"
-	goBin     = "go1.26.8"
+	repoDir = "/repo"
+	goBin   = "go1.26.8"
 )
+
+// verifRoot is the directory the checks run in (cwd = /verif per MANIFEST contract, or a
+// snapshot of it); everything the driver reads or writes is relative to it.
+var verifRoot, simDir = func() (string, string) {
+	wd, err := os.Getwd()
+	if err != nil {
+		wd = "/verif"
+	}
+	for d := wd; d != "/" && d != "."; d = filepath.Dir(d) {
+		if _, err := os.Stat(filepath.Join(d, "sim", "go.mod")); err == nil {
+			return d, filepath.Join(d, "sim")
+		}
+	}
+	return "/verif", "/verif/sim"
+}()
 
 type replay struct {
 	Plan     json.RawMessage `json:"plan"`
